@@ -89,3 +89,22 @@ def _depth_contains(outer: ast.AST, inner: ast.AST) -> bool:
         if n is inner:
             return True
     return False
+
+
+def transcode_chains(fn_node: ast.AST) -> list[ast.Call]:
+    """`.encode(...)` calls whose receiver is the result of a `.decode(...)` (directly or through one local): bytes -> str -> bytes."""
+    from sa.engine.loader import walk_own
+
+    decoded = set()
+    for n in walk_own(fn_node):
+        if isinstance(n, ast.Assign) and len(n.targets) == 1 and isinstance(n.targets[0], ast.Name):
+            v = n.value
+            if isinstance(v, ast.Call) and isinstance(v.func, ast.Attribute) and v.func.attr == "decode" and not (isinstance(v.func.value, ast.Name) and v.func.value.id in ("base64", "quopri", "binascii", "codecs")):
+                decoded.add(n.targets[0].id)
+    out = []
+    for c in ast.walk(fn_node):
+        if isinstance(c, ast.Call) and isinstance(c.func, ast.Attribute) and c.func.attr == "encode":
+            r = c.func.value
+            if (isinstance(r, ast.Call) and isinstance(r.func, ast.Attribute) and r.func.attr == "decode" and not (isinstance(r.func.value, ast.Name) and r.func.value.id in ("base64", "quopri", "binascii", "codecs"))) or (isinstance(r, ast.Name) and r.id in decoded):
+                out.append(c)
+    return out
